@@ -11,6 +11,8 @@ V: each execution's history (invocation / response order, request frames encoded
    is checked by TLC (ConcurrencyTrace) for linearizability against the tag model: some placement of atomic (member)
    effects between invocation and response must explain every reply and the final memory; each session must get
    exactly its own replies; no deadlock, no exception.
+F: the same scenarios also run on free-running threads (no scheduler, no instrumented locks, interpreter switch interval
+   1 us), hundreds of repetitions; the recorded invocation / response histories are judged by the same acceptor.
 """
 import json
 import os
@@ -82,6 +84,65 @@ def exec_schedule(job):
             "which": sc["which"], "points": len(S.trace), "trace": ["%d:%s" % x for x in S.trace][:200]}
 
 
+def exec_free(job):
+    """the same scenario on free-running threads (no scheduler, no instrumented locks): the interpreter may switch threads
+    anywhere (switch interval 1 us); invocation / response order as appended to one list (an append is atomic)"""
+    import sys
+    import threading
+    import cpppo
+    from cpppo.server.enip import parser, logix
+    from .. import sim
+    sc, rep = job
+    cfg = sc["cfg"]
+    dev = sim.Device(cfg)
+    dev.set_mem(sc["mem0"])
+    ops, evs, ids, errors = [], [], {}, []
+    for s, lst in enumerate(sc["ops"], start=1):
+        for i, q in enumerate(lst):
+            ops.append({"s": s, "r": q["r"], "rpy": []})
+            ids[(s, i)] = len(ops)
+    go = threading.Event()
+
+    def body(s):
+        def run():
+            machine = parser.enip_machine(context="enip")
+            go.wait()
+            for i, q in enumerate(sc["ops"][s - 1]):
+                oid = ids[(s, i)]
+                evs.append({"e": "inv", "id": oid})
+                try:
+                    data = cpppo.dotdict()
+                    source = cpppo.peekable(bytes(bytearray(q["fb"])))
+                    with machine:
+                        for _ in machine.run(source=source, data=data, path="request"):
+                            pass
+                    ok = logix.process(("10.0.0.%d" % s, 5000 + s), data=data)
+                    rpy = bytes(parser.enip_encode(data.response.enip)) if ok else b""
+                    if rpy and rpy[12:20] != bytes(bytearray(q["fb"][12:20])):
+                        errors.append("session %d got a reply with another context" % s)
+                    ops[oid - 1]["rpy"] = list(rpy[40:]) if len(rpy) > 40 and rpy[8:12] == b"\0\0\0\0" else []
+                except Exception as exc:
+                    errors.append("session %d: %r" % (s, exc))
+                evs.append({"e": "resp", "id": oid})
+        return run
+    old = sys.getswitchinterval()
+    sys.setswitchinterval(1e-6)
+    try:
+        ths = [threading.Thread(target=body(s), daemon=True) for s in range(1, len(sc["ops"]) + 1)]
+        for th in ths:
+            th.start()
+        go.set()
+        for th in ths:
+            th.join(20)
+        if any(th.is_alive() for th in ths):
+            errors.append("did not finish")
+    finally:
+        sys.setswitchinterval(old)
+    overlap = any(evs[k]["e"] == "inv" and evs[k - 1]["e"] == "inv" for k in range(1, len(evs)))
+    return {"cfg": cfg, "mem0": sc["mem0"], "ops": ops, "ev": list(evs), "final": dev.get_mem(), "errors": errors, "schedule": ["free", rep],
+            "which": sc["which"], "points": 0, "trace": [], "overlap": overlap}
+
+
 def validate(ctx, lines, name):
     bad = []
     CH = 3000
@@ -110,7 +171,8 @@ def main(ctx):
                "x schedules `f runs a points, g runs b points, then the rest' for a in 0..60, b in {1,2,3,4,6,9,14,to-completion}, "
                "all ordered pairs of sessions.  Non-trivial: the schedule switches threads while a request is in progress "
                "(a within the number of scheduling points of f's requests).")
-    ev.assumptions = ["code between two scheduling points (shared parser locks, tag storage accesses) touches only thread-local data or GIL-atomic operations",
+    ev.assumptions = ["free-running part: sampling (the interpreter's switch interval is set to 1 us); histories judged by the same linearizability acceptor",
+                      "code between two scheduling points (shared parser locks, tag storage accesses) touches only thread-local data or GIL-atomic operations",
                       "per-frame pipeline driven in-process (parse, logix.process, encode); the socket layer is covered by C02/C06",
                       "a bundle is not atomic as a whole: its members are individually atomic, in member order"]
     jobs = []
@@ -151,7 +213,24 @@ def main(ctx):
                                                             "final": ln["final"], "trace": ln["trace"]},
                       what="scenario %s schedule %s: history not linearizable: replies %s final %s" % (
                           ln["which"], ln["schedule"], json.dumps([o["rpy"] for o in ln["ops"]])[:300], json.dumps(ln["final"])[:200]))
-    ev.extra.update({"executions": len(lines), "scheduling_points_per_scenario": maxpts})
+    # free-running threads: the same scenarios without any instrumentation, many repetitions
+    scen = {}
+    for sc, x in jobs:
+        scen[sc["which"]] = sc
+    fjobs = [(scen[w], k) for w in sorted(scen) for k in range(120 if ctx.quick else 3000)]
+    flines = core.pmap(exec_free, fjobs, chunksize=10)
+    for ln in flines:
+        ev.case(key=("free", ln["which"], json.dumps(ln["ev"])), nontrivial=ln["overlap"])
+        if ln["errors"]:
+            ctx.violation("concurrency_error_free", {"which": ln["which"], "errors": ln["errors"], "ev": ln["ev"]},
+                          what="scenario %s on free-running threads: %s" % (ln["which"], "; ".join(ln["errors"])[:300]))
+    bad = validate(ctx, [ln for ln in flines if not ln["errors"]], "free")
+    for ln, why in bad:
+        ctx.violation("not_linearizable_free_%s" % ln["which"], {"which": ln["which"], "ops": ln["ops"], "ev": ln["ev"], "final": ln["final"]},
+                      what="scenario %s on free-running threads: history not linearizable: replies %s final %s" % (
+                          ln["which"], json.dumps([o["rpy"] for o in ln["ops"]])[:300], json.dumps(ln["final"])[:200]))
+    ev.extra.update({"executions": len(lines), "scheduling_points_per_scenario": maxpts, "free_running_executions": len(flines),
+                     "free_running_overlapping": sum(1 for ln in flines if ln["overlap"])})
 
 
 def replay(ctx, path):
